@@ -746,4 +746,343 @@ theorem ctl_spec {m : SeqMod} (w : WFacts m) {s : St} (hc : Core m s) (c : Ctl) 
     exact ⟨⟨hc.seq, hc.ord, hc.ordPat, ⟨by simp only; omega, by have := w.len; simp only; omega⟩, hc.row, hc.speed, hc.bpm,
       hc.ftBpm, hc.st26, hc.jump, hc.jumpline⟩, fun ri => ⟨ri.rowLt, ri.numOk⟩⟩
 
+/-! ## Termination of the order-skipping loop of `next_order` -/
+
+/-- the loader's order-list guarantee in the form `next_order` needs (`Seq.ordWfB`, evaluated on
+every module played) -/
+def OrdWF (m : SeqMod) : Prop := ordWfB m = true
+
+/-- `xxo[j]` is the 0xff end marker of a marker module -/
+def EndMark (m : SeqMod) (j : Int) : Prop := m.marker = true ∧ m.xo j = 0xff
+
+/-- the `(p->ord, reset_gvol)` pair one iteration of the loop body computes before the
+`while (mod->xxo[p->ord] >= mod->pat)` test -/
+def orderStep (m : SeqMod) (seq ord : Int) (rg : Bool) : Int × Bool :=
+  let ord1 := ord + 1
+  let mark := m.marker && decide (ord1 < m.len) && decide (m.xo ord1 = 0xff)
+  if ord1 ≥ m.len ∨ mark = true then
+    if m.rst > m.len ∨ m.xo m.rst ≥ m.pat ∨ ord1 < m.entryOf seq then (m.entryOf seq, true)
+    else if geti m.seqCtl m.rst = seq then (m.rst, true)
+    else (m.entryOf seq, true)
+  else (ord1, rg)
+
+theorem nextOrderLoop_succ (m : SeqMod) (seq : Int) (fuel : Nat) (ord : Int) (rg : Bool) :
+    nextOrderLoop m seq (fuel + 1) ord rg =
+      if m.xo (orderStep m seq ord rg).1 ≥ m.pat then
+        nextOrderLoop m seq fuel (orderStep m seq ord rg).1 (orderStep m seq ord rg).2
+      else some (orderStep m seq ord rg) := rfl
+
+/-- the three ways one iteration can move `p->ord`: plain advance, wrap to the entry point,
+wrap to the restart position -/
+theorem orderStep_cases (m : SeqMod) (seq ord : Int) (rg : Bool) :
+    ((orderStep m seq ord rg) = (ord + 1, rg) ∧ ord + 1 < m.len ∧ ¬ EndMark m (ord + 1)) ∨
+    ((ord + 1 ≥ m.len ∨ EndMark m (ord + 1)) ∧ (orderStep m seq ord rg).1 = m.entryOf seq ∧
+      (m.rst > m.len ∨ m.xo m.rst ≥ m.pat ∨ ord + 1 < m.entryOf seq ∨ geti m.seqCtl m.rst ≠ seq)) ∨
+    ((ord + 1 ≥ m.len ∨ EndMark m (ord + 1)) ∧ (orderStep m seq ord rg).1 = m.rst ∧
+      m.rst ≤ m.len ∧ m.xo m.rst < m.pat ∧ m.entryOf seq ≤ ord + 1 ∧ geti m.seqCtl m.rst = seq) := by
+  unfold orderStep EndMark
+  simp only [Bool.and_eq_true, decide_eq_true_eq]
+  by_cases hw : ord + 1 ≥ m.len ∨ ((m.marker = true ∧ ord + 1 < m.len) ∧ m.xo (ord + 1) = 0xff)
+  · have hw' : ord + 1 ≥ m.len ∨ (m.marker = true ∧ m.xo (ord + 1) = 0xff) := by
+      rcases hw with h | ⟨⟨a, _⟩, c⟩
+      · exact Or.inl h
+      · exact Or.inr ⟨a, c⟩
+    rw [if_pos hw]
+    by_cases h1 : m.rst > m.len ∨ m.xo m.rst ≥ m.pat ∨ ord + 1 < m.entryOf seq
+    · rw [if_pos h1]
+      right; left
+      refine ⟨hw', rfl, ?_⟩
+      rcases h1 with h | h | h
+      · exact Or.inl h
+      · exact Or.inr (Or.inl h)
+      · exact Or.inr (Or.inr (Or.inl h))
+    · rw [if_neg h1]
+      simp only [not_or] at h1
+      by_cases h2 : geti m.seqCtl m.rst = seq
+      · rw [if_pos h2]
+        right; right
+        exact ⟨hw', rfl, by omega, by omega, by omega, h2⟩
+      · rw [if_neg h2]
+        right; left
+        exact ⟨hw', rfl, Or.inr (Or.inr (Or.inr h2))⟩
+  · rw [if_neg hw]
+    left
+    simp only [not_or] at hw
+    refine ⟨rfl, by omega, ?_⟩
+    intro ⟨a, c⟩
+    exact hw.2 ⟨⟨a, by omega⟩, c⟩
+
+/-- generic termination argument: a measure that is positive on `P` and strictly decreases on
+every iteration that does not leave the loop bounds the number of iterations -/
+theorem nextOrderLoop_isSome_of_measure (m : SeqMod) (seq : Int) (μ : Int → Int) (P : Int → Prop)
+    (hpos : ∀ ord, P ord → 1 ≤ μ ord)
+    (hstep : ∀ ord rg, P ord → m.xo (orderStep m seq ord rg).1 ≥ m.pat →
+      P (orderStep m seq ord rg).1 ∧ μ (orderStep m seq ord rg).1 < μ ord) :
+    ∀ (fuel : Nat) (ord : Int) (rg : Bool), P ord → μ ord ≤ fuel →
+      (nextOrderLoop m seq fuel ord rg).isSome = true := by
+  intro fuel
+  induction fuel with
+  | zero => intro ord rg hp hm; have := hpos ord hp; omega
+  | succ n ih =>
+    intro ord rg hp hm
+    rw [nextOrderLoop_succ]
+    split
+    · rename_i hc
+      obtain ⟨p', lt⟩ := hstep ord rg hp hc
+      exact ih _ _ p' (by omega)
+    · rfl
+
+theorem reachFrom_spec (m : SeqMod) : ∀ (fuel : Nat) (o : Int), reachFrom m fuel o = true →
+    ∃ v, o ≤ v ∧ v < m.len ∧ m.xo v < m.pat ∧ ¬ EndMark m v ∧
+      ∀ j, o ≤ j → j < v → m.xo j ≥ m.pat ∧ ¬ EndMark m j := by
+  intro fuel
+  induction fuel with
+  | zero => intro o h; simp [reachFrom] at h
+  | succ n ih =>
+    intro o h
+    unfold reachFrom at h
+    split at h
+    · simp at h
+    · split at h
+      · simp at h
+      · rename_i hl hm
+        split at h
+        · rename_i hv
+          exact ⟨o, by omega, by omega, hv, hm, fun j h1 h2 => by omega⟩
+        · rename_i hv
+          obtain ⟨v, a, b, c, d, e⟩ := ih (o + 1) h
+          refine ⟨v, by omega, b, c, d, fun j h1 h2 => ?_⟩
+          by_cases hj : j = o
+          · subst hj; exact ⟨by omega, hm⟩
+          · exact e j (by omega) h2
+
+/-- a sequence whose wrap target is a restart position holding a pattern: at most
+`max (len - ord) 1` iterations -/
+theorem nextOrderLoop_isSome_rst {m : SeqMod} {seq : Int} (he : 0 ≤ m.entryOf seq ∧ m.entryOf seq < m.len)
+    (hr : rstOkB m seq = true) (fuel : Nat) (ord : Int) (rg : Bool) (hord : -1 ≤ ord)
+    (hf : (if m.len - ord ≥ 1 then m.len - ord else 1) ≤ fuel) :
+    (nextOrderLoop m seq fuel ord rg).isSome = true := by
+  unfold rstOkB at hr
+  simp only [Bool.and_eq_true, decide_eq_true_eq] at hr
+  obtain ⟨⟨r1, r2⟩, r3⟩ := hr
+  apply nextOrderLoop_isSome_of_measure m seq (fun o => if m.len - o ≥ 1 then m.len - o else 1) (fun o => -1 ≤ o)
+  · intro o _; (try simp only); split <;> omega
+  · intro o rg' ho hc
+    rcases orderStep_cases m seq o rg' with ⟨e, a, _⟩ | ⟨_, e, c⟩ | ⟨_, e, _, c, _⟩
+    · rw [e]; simp only
+      refine ⟨by omega, ?_⟩
+      split <;> split <;> omega
+    · rw [e]; (try simp only)
+      have : o + 1 < m.entryOf seq := by omega
+      refine ⟨by omega, ?_⟩
+      split <;> split <;> omega
+    · rw [e] at hc; omega
+  · exact hord
+  · exact hf
+
+/-- a sequence whose entry point reaches an order `v` holding a pattern: at most `len` iterations -/
+theorem nextOrderLoop_isSome_reach {m : SeqMod} {seq : Int} (he : 0 ≤ m.entryOf seq) {v : Int}
+    (h1 : m.entryOf seq ≤ v) (h2 : v < m.len) (h3 : m.xo v < m.pat) (h4 : m.entryOf seq < v → ¬ EndMark m v)
+    (h5 : ∀ j, m.entryOf seq < j → j < v → m.xo j ≥ m.pat ∧ ¬ EndMark m j)
+    (fuel : Nat) (ord : Int) (rg : Bool) (hord : -1 ≤ ord)
+    (hf : (if ord < v then v - ord else (if m.len - ord ≥ 1 then m.len - ord else 1) + (v - m.entryOf seq)) ≤ fuel) :
+    (nextOrderLoop m seq fuel ord rg).isSome = true := by
+  apply nextOrderLoop_isSome_of_measure m seq
+    (fun o => if o < v then v - o else (if m.len - o ≥ 1 then m.len - o else 1) + (v - m.entryOf seq)) (fun o => -1 ≤ o)
+  · intro o _; (try simp only); split <;> (try split) <;> omega
+  · intro o rg' ho hc
+    rcases orderStep_cases m seq o rg' with ⟨e, a, b⟩ | ⟨w, e, _⟩ | ⟨_, e, _, c, _⟩
+    · rw [e] at hc ⊢; simp only at hc ⊢
+      have hne : o + 1 ≠ v := by intro h; rw [h] at hc; omega
+      refine ⟨by omega, ?_⟩
+      split <;> split <;> (try split) <;> (try split) <;> omega
+    · rw [e] at hc ⊢; (try simp only)
+      have hne : m.entryOf seq ≠ v := by intro h; rw [h] at hc; omega
+      have hlt : m.entryOf seq < v := by omega
+      have hlow : o < m.entryOf seq ∨ v ≤ o := by
+        refine Classical.byContradiction fun hn => ?_
+        have hb : m.entryOf seq ≤ o ∧ o < v := by omega
+        rcases w with w | w
+        · omega
+        · by_cases hv : o + 1 = v
+          · rw [hv] at w; exact h4 hlt w
+          · exact (h5 (o + 1) (by omega) (by omega)).2 w
+      refine ⟨by omega, ?_⟩
+      rw [if_pos hlt]
+      split <;> (try split) <;> omega
+    · rw [e] at hc; omega
+  · exact hord
+  · exact hf
+
+/-- **Termination of `next_order`'s loop**: for a well-formed module whose sequences can reach a
+pattern (`OrdWF`), from any `p->ord ≥ -1` (any jump target, any pending position) and any real
+sequence, `len + 1` iterations suffice: the loop leaves through its own `while` condition. -/
+theorem nextOrderLoop_terminates {m : SeqMod} (w : WFacts m) (ow : OrdWF m) {seq : Int} (hs0 : 0 ≤ seq)
+    (hs1 : seq < m.numSeq) (ord : Int) (rg : Bool) (hord : -1 ≤ ord) (fuel : Nat) (hf : m.len + 1 ≤ fuel) :
+    (nextOrderLoop m seq fuel ord rg).isSome = true := by
+  have he := w.entry seq hs0 hs1
+  have hl := w.len
+  unfold OrdWF ordWfB at ow
+  have hq := allBelow_spec ow seq hs0 (by omega)
+  simp only [Bool.or_eq_true, decide_eq_true_eq] at hq
+  rcases hq with (hq | hq) | hq
+  · apply nextOrderLoop_isSome_rst he hq fuel ord rg hord
+    split <;> omega
+  · apply nextOrderLoop_isSome_reach he.1 (v := m.entryOf seq) (by omega) he.2 hq (by omega) (by intro j a b; omega)
+      fuel ord rg hord
+    split <;> (try split) <;> omega
+  · obtain ⟨v, a, b, c, d, e⟩ := reachFrom_spec m 256 _ hq
+    apply nextOrderLoop_isSome_reach he.1 (v := v) (by omega) b c (fun _ => d) (fun j x y => e j (by omega) y)
+      fuel ord rg hord
+    split <;> (try split) <;> omega
+
+/-- more fuel never changes the result -/
+theorem nextOrderLoop_mono (m : SeqMod) (seq : Int) : ∀ (fuel : Nat) (ord : Int) (rg : Bool) (r : Int × Bool) (k : Nat),
+    nextOrderLoop m seq fuel ord rg = some r → nextOrderLoop m seq (fuel + k) ord rg = some r := by
+  intro fuel
+  induction fuel with
+  | zero => intro ord rg r k h; simp [nextOrderLoop] at h
+  | succ n ih =>
+    intro ord rg r k h
+    rw [show n + 1 + k = (n + k) + 1 by omega, nextOrderLoop_succ]
+    rw [nextOrderLoop_succ] at h
+    split
+    · rename_i hc; rw [if_pos hc] at h; exact ih _ _ r k h
+    · rename_i hc; rw [if_neg hc] at h; exact h
+
+theorem orderFuel_ge {m : SeqMod} (w : WFacts m) : m.len + 1 ≤ (orderFuel : Nat) := by
+  have := w.len; simp only [orderFuel]; omega
+
+/-- `next_order` returns (model: is not `none`) -/
+theorem nextOrder_isSome {m : SeqMod} (w : WFacts m) (ow : OrdWF m) {s : St}
+    (hs : 0 ≤ s.sequence ∧ s.sequence < m.numSeq) (hord : -1 ≤ s.ord) : (nextOrder m s).isSome = true := by
+  have h := nextOrderLoop_terminates w ow hs.1 hs.2 s.ord false hord orderFuel (orderFuel_ge w)
+  unfold nextOrder
+  cases hq : nextOrderLoop m s.sequence orderFuel s.ord false with
+  | none => rw [hq] at h; simp at h
+  | some r => rfl
+
+/-- `next_row` returns from a playing state -/
+theorem nextRow_isSome {m : SeqMod} (w : WFacts m) (ow : OrdWF m) {s : St} (hp : Playing m s) :
+    (nextRow m s).isSome = true := by
+  have c := hp.core
+  unfold nextRow
+  simp only
+  split
+  · split
+    · rename_i hj
+      exact nextOrder_isSome w ow (s := { s with frame := 0, delay := 0, pbreak := 0, ord := s.jump - 1, jump := -1 })
+        c.seq (by simp only; have := c.jump; omega)
+    · exact nextOrder_isSome w ow (s := { s with frame := 0, delay := 0, pbreak := 0 }) c.seq
+        (by simp only; have := c.ord; omega)
+  · generalize hs1 : (if s.rowdelay = 0 then { s with frame := 0, delay := 0, row := s.row + 1 }
+        else { s with frame := 0, delay := 0, rowdelay := s.rowdelay - 1 } : St) = s1
+    have e1 : s1.ord = s.ord ∧ s1.sequence = s.sequence := by rw [← hs1]; split <;> simp
+    generalize hs2 : (if s1.loopDest ≥ 0 then { s1 with row := s1.loopDest, loopDest := -1 } else s1 : St) = s2
+    have e2 : s2.ord = s.ord ∧ s2.sequence = s.sequence := by
+      rw [← hs2]; split
+      · exact e1
+      · exact e1
+    split
+    · exact nextOrder_isSome w ow (by rw [e2.2]; exact c.seq) (by rw [e2.1]; have := c.ord; omega)
+    · rfl
+
+/-- **No frame hangs**: from any state satisfying the boundary invariant the kernel part of
+`xmp_play_frame` returns. -/
+theorem kernelPre_returns {m : SeqMod} (w : WFacts m) (ow : OrdWF m) {s : St} (hc : Core m s) :
+    kernelPre m s ≠ .diverge := by
+  intro h
+  unfold kernelPre at h
+  split at h
+  · simp at h
+  split at h
+  · simp at h
+  split at h
+  · split at h
+    · simp at h
+    split at h
+    · rename_i heq
+      have he := w.entry s.sequence hc.seq.1 hc.seq.2
+      have := nextOrder_isSome w ow (s := reposPrep m s) hc.seq (by simp only [reposPrep]; split <;> omega)
+      rw [heq] at this; simp at this
+    · simp at h
+  · rename_i hpo
+    have hpo : s.pos = s.ord := by omega
+    have hp1 : Playing m { s with frame := s.frame + 1 } :=
+      ⟨⟨hc.seq, hc.ord, hc.ordPat, hc.pos, hc.row, hc.speed, hc.bpm, hc.ftBpm, hc.st26, hc.jump, hc.jumpline⟩, hpo⟩
+    simp only at h
+    split at h
+    · split at h
+      · split at h
+        · rename_i heq
+          have := nextRow_isSome w ow hp1
+          rw [heq] at this; simp at this
+        · rename_i s2 heq
+          split at h
+          · rename_i heq3
+            obtain ⟨p2, _⟩ := nextRow_spec w hp1 heq
+            have := nextRow_isSome w ow (playing_checkEnd p2)
+            rw [heq3] at this; simp at this
+          · simp at h
+      · split at h
+        · rename_i heq
+          have := nextRow_isSome w ow hp1
+          rw [heq] at this; simp at this
+        · simp at h
+    · simp at h
+
+theorem playFrame_returns {m : SeqMod} (w : WFacts m) (ow : OrdWF m) {s : St} (hc : Core m s) (eA eB : Eff) :
+    playFrame m s eA eB ≠ .diverge := by
+  have hk := kernelPre_returns w ow hc
+  intro h
+  unfold playFrame kernelStep at h
+  cases hq : kernelPre m s with
+  | ok s1 => rw [hq] at h; simp at h
+  | fin => rw [hq] at h; simp at h
+  | diverge => exact hk hq
+
+/-- when `xmp_play_frame` returns `-XMP_END` (state untouched): exactly the C's three early returns -/
+theorem playFrame_fin_iff {m : SeqMod} (w : WFacts m) (ow : OrdWF m) {s : St} (hc : Core m s) (eA eB : Eff) :
+    playFrame m s eA eB = .fin ↔ (EndMark m s.ord ∨ (s.ord ≠ s.pos ∧ s.pos = -2)) := by
+  have hk := kernelPre_returns w ow hc
+  have hl : ¬ m.len ≤ 0 := by have := w.len; omega
+  have key : kernelPre m s = .fin ↔ (EndMark m s.ord ∨ (s.ord ≠ s.pos ∧ s.pos = -2)) := by
+    unfold EndMark
+    constructor
+    · intro h
+      unfold kernelPre at h
+      rw [if_neg hl] at h
+      by_cases h1 : m.marker = true ∧ m.xo s.ord = 0xff
+      · exact Or.inl h1
+      · rw [if_neg h1] at h
+        by_cases h2 : s.ord ≠ s.pos
+        · rw [if_pos h2] at h
+          by_cases h3 : s.pos = -2
+          · exact Or.inr ⟨h2, h3⟩
+          · rw [if_neg h3] at h
+            split at h <;> simp at h
+        · rw [if_neg h2] at h
+          simp only at h
+          split at h
+          · split at h
+            · split at h
+              · simp at h
+              · split at h <;> simp at h
+            · split at h <;> simp at h
+          · simp at h
+    · intro h
+      unfold kernelPre
+      rw [if_neg hl]
+      rcases h with h | ⟨h2, h3⟩
+      · rw [if_pos h]
+      · by_cases h1 : m.marker = true ∧ m.xo s.ord = 0xff
+        · rw [if_pos h1]
+        · rw [if_neg h1, if_pos h2, if_pos h3]
+  rw [← key]
+  unfold playFrame kernelStep
+  cases hq : kernelPre m s with
+  | ok s1 => simp
+  | fin => simp
+  | diverge => exact absurd hq hk
+
 end Xmp.Seq
